@@ -141,7 +141,59 @@ func runC02Followup(c *Ctx, w *ATWorld) {
 				}
 				branches := len(w.coord.RegisteredBranches(xid))
 				final := w.DumpTable(table)
-				c.Out.Case(cid, "C02", "skip", "skip")
+				// for the model (op `atconn`): the case as operations on the connection, and for every UPDATE at the
+				// database: belongs to the global transaction (all of them do) / inside a local transaction /
+				// recorded (its local transaction wrote an undo log before it committed). Only where the model
+				// speaks: no fault, or a BEGIN the driver refuses.
+				if fault == "none" || fault == "begin" {
+					var mops, seen []string
+					for k, explicit := range []bool{explicit1, explicit2} {
+						bf := b2i(fault == "begin" && k == 0)
+						if !explicit {
+							mops = append(mops, fmt.Sprintf("s:1:%d", bf))
+							continue
+						}
+						mops = append(mops, fmt.Sprintf("b:1:%d", bf))
+						if bf == 1 {
+							continue
+						}
+						g := 1
+						if fault == "none" && k == 1 {
+							g = 0 // issued with context.Background()
+						}
+						mops = append(mops, fmt.Sprintf("s:%d:0", g), "e")
+					}
+					// walk the journal again: one entry per UPDATE
+					in, sawUndo := false, false
+					var pending []int
+					for _, tk := range toks {
+						switch tk {
+						case "B":
+							in, sawUndo, pending = true, false, nil
+						case "x":
+							seen = append(seen, fmt.Sprintf("1%d?", b2i(in)))
+							if in {
+								pending = append(pending, len(seen)-1)
+							} else {
+								seen[len(seen)-1] = "100"
+							}
+						case "u":
+							sawUndo = true
+						case "c", "r", "c!", "r!":
+							for _, at := range pending {
+								seen[at] = fmt.Sprintf("11%d", b2i(sawUndo && tk == "c"))
+							}
+							in, pending = false, nil
+						}
+					}
+					obs := "seen=-"
+					if len(seen) > 0 {
+						obs = "seen=" + strings.Join(seen, ",")
+					}
+					c.Out.Case(cid, "C02", "atconn "+strings.Join(mops, " "), obs)
+				} else {
+					c.Out.Case(cid, "C02", "skip", "skip")
+				}
 				class, detail := "", ""
 				fail := func(cl, d string) {
 					if class == "" {
